@@ -1398,10 +1398,15 @@ class Stage:
                 subst_to.append(ret.t)
             else:
                 subst_to.append(MX.sym(k.name(), k.sparsity()))
+        # Expressions stored inside the stage may refer to placeholders (e.g. t) as well
+        def renew(e):
+            return substitute([MX(e)], subst_from, subst_to)[0] if isinstance(e, MX) else e
         for k_old, k_new in zip(subst_from, subst_to):
-            ret._placeholders[k_new] = self._placeholders[k_old]
+            p_name, p_expr, p_args, p_kwargs = self._placeholders[k_old]
+            ret._placeholders[k_new] = (p_name, renew(p_expr), p_args, p_kwargs)
 
         ret.states = copy(self.states)
+        ret.qstates = copy(self.qstates)
         ret.controls = copy(self.controls)
         ret.algebraics = copy(self.algebraics)
         ret.parameters = deepcopy(self.parameters)
@@ -1409,10 +1414,14 @@ class Stage:
 
         ret._offsets = deepcopy(self._offsets)
         ret._param_vals = copy(self._param_vals)
-        ret._state_der = copy(self._state_der)
+        ret._state_der = HashDict()
+        for k, v in self._state_der.items():
+            ret._state_der[k] = renew(v)
         ret._scale_der = copy(self._scale_der)
-        ret._alg = copy(self._alg)
-        ret._state_next = copy(self._state_next)
+        ret._alg = [renew(e) for e in self._alg]
+        ret._state_next = HashDict()
+        for k, v in self._state_next.items():
+            ret._state_next[k] = renew(v)
         constr_types = self._constraints.keys()
         orig = []
         for k in constr_types:
